@@ -47,7 +47,7 @@ def build_jobs(seed: int) -> list:
     jobs.append({"seed": seed, "world": c03.world_of(seed, 1), "targets": ft, "ops": fops, "use_faults": True, "wall_s": 900})
     # C19 job
     progs = {"probe": open(os.path.join(VERIF, "workload", "cli_probe.lp"), encoding="utf-8").read()}
-    progs.update({k: v for k, v in c19.special_programs().items() if k != "big"})
+    progs.update({k: v for k, v in c19.special_programs().items() if k not in ("big", "longline")})
     crng = stream(seed, "selftest", "cli")
     runs = [c19.make_run(crng, progs, crng.choice(list(progs)), k % 3 == 2, False) for k in range(6)]
     wr = stream(seed, "selftest", "cliworld")
